@@ -79,7 +79,7 @@ theorem undoPairs_conns (g : G) (log : List (Nat × Nat)) (h : Inv g) (x : Nat) 
   unfold undoPairs
   induction log generalizing g with
   | nil =>
-    simp only [covered, List.any_nil, Bool.not_false, List.foldl_nil, List.map_nil]
+    simp only [covered, List.any_nil, Bool.not_false, List.foldl_nil]
     exact (List.filter_eq_self.mpr (fun _ _ => rfl)).symm
   | cons p ps ih =>
     simp only [List.foldl_cons]
@@ -772,5 +772,322 @@ theorem dag_atomic (fuel : Nat) (w : W) (p : Nat) (up : Nat → List Nat) (start
             simp only [dagRecover, Cfg.repaired, if_true]
             rw [restoreLists_eq w.g _ _ ((cutAll_static _ _).trans hst)
               (fun x hx => (hfr x hx).trans (cut_restore w.g _ x hx))]
+
+/-! ## channel tables -/
+
+theorem mem_panels_all (w : W) (n : Nat) (pl : List Nat) (c : Nat) (hp : pl ∈ panels w n) (hc : c ∈ pl) :
+    c ∈ (w.io n).all := by
+  unfold panels at hp
+  unfold NodeIO.all
+  split at hp <;> simp at hp <;> rcases hp with rfl | rfl | rfl | rfl <;> simp [hc]
+
+theorem findLab_mem (w : W) (pl : List Nat) (l : String) (c : Nat) (h : findLab w pl l = some c) : c ∈ pl := by
+  unfold findLab at h
+  exact List.mem_of_find?_eq_some h
+
+theorem mem_ioPairs (w : W) (me other : Nat) (my : Option Nat) (oc : Nat) (h : (my, oc) ∈ ioPairs w me other) :
+    oc ∈ (w.io other).all ∧ ∀ m, my = some m → m ∈ (w.io me).all := by
+  unfold ioPairs at h
+  obtain ⟨mo, hmo, hin⟩ := List.mem_flatMap.mp h
+  obtain ⟨oc', hoc', heq⟩ := List.mem_map.mp hin
+  simp only [Prod.mk.injEq] at heq
+  obtain ⟨hmy, rfl⟩ := heq
+  have hz := List.of_mem_zip hmo
+  refine ⟨mem_panels_all w other mo.2 oc' hz.2 hoc', ?_⟩
+  intro m hm
+  rw [hm] at hmy
+  exact mem_panels_all w me mo.1 m hz.1 (findLab_mem w _ _ _ hmy)
+
+theorem mem_standIns (w : W) (new old : Nat) (oc nc : Nat) (h : (oc, nc) ∈ standIns w new old) :
+    (some nc, oc) ∈ ioPairs w new old ∧ w.g.conns oc ≠ [] := by
+  unfold standIns at h
+  obtain ⟨mo, hmo, hf⟩ := List.mem_filterMap.mp h
+  split at hf
+  · cases hf
+  · rename_i hne
+    obtain ⟨my, oc'⟩ := mo
+    cases my with
+    | none => simp at hf
+    | some m =>
+      simp only [Option.map_some, Option.some.injEq, Prod.mk.injEq] at hf
+      obtain ⟨rfl, rfl⟩ := hf
+      exact ⟨hmo, by simpa using hne⟩
+
+theorem standIns_of (w : W) (new old : Nat) (oc nc : Nat) (h : (some nc, oc) ∈ ioPairs w new old)
+    (hne : w.g.conns oc ≠ []) : (oc, nc) ∈ standIns w new old := by
+  unfold standIns
+  apply List.mem_filterMap.mpr
+  refine ⟨(some nc, oc), h, ?_⟩
+  simp [hne]
+
+/-! ## what `copy_io` onto an unconnected node leaves -/
+
+/-- no channel of `old` is connected to a channel of `old` -/
+def NoSelfConn (g : G) (old : Nat) : Prop :=
+  ∀ c, g.owner c = old → ∀ y ∈ g.conns c, g.owner y ≠ old
+
+/-- the copy loop only ever connects a channel of `new` to a partner of `old` -/
+def PairsOwned (g : G) (old new : Nat) (ps : List (Option Nat × Nat)) : Prop :=
+  ∀ my oc, (my, oc) ∈ ps → g.owner oc = old ∧ ∀ m, my = some m → g.owner m = new
+
+structure CopyInv (g0 : G) (old new : Nat) (g : G) : Prop where
+  inv : Inv g
+  static : SameStatic g0 g
+  /-- the lists of the copied node are untouched -/
+  oldSame : ∀ x, g0.owner x = old → g.conns x = g0.conns x
+  /-- every other list is its former self behind a prefix of channels of `new` -/
+  others : ∀ x, g0.owner x ≠ new → (g.conns x).filter (fun y => g0.owner y != new) = g0.conns x
+  /-- the channels of `new` are only connected to partners of `old` -/
+  newOnly : ∀ y, g0.owner y = new → ∀ z ∈ g.conns y, ∃ oc, g0.owner oc = old ∧ z ∈ g0.conns oc
+
+theorem CopyInv.init (g0 : G) (old new : Nat) (h : Inv g0) (hun : ∀ c, g0.owner c = new → g0.conns c = []) :
+    CopyInv g0 old new g0 := by
+  refine ⟨h, .refl g0, fun _ _ => rfl, ?_, ?_⟩
+  · intro x _
+    apply List.filter_eq_self.mpr
+    intro y hy
+    simp only [bne_iff_ne, ne_eq]
+    intro hyn
+    have := (h.symm x y).mp hy
+    rw [hun y hyn] at this
+    cases this
+  · intro y hy z hz
+    rw [hun y hy] at hz; cases hz
+
+theorem CopyInv.link {g0 g : G} {old new : Nat} (hc : CopyInv g0 old new g) (hne : old ≠ new)
+    (hself : NoSelfConn g0 old) (hun : ∀ c, g0.owner c = new → g0.conns c = [])
+    {m t oc : Nat} (hm : g0.owner m = new) (hoc : g0.owner oc = old) (ht : t ∈ g.conns oc)
+    (he : connect1 g m t = (linked g m t, .ok)) : CopyInv g0 old new (linked g m t) := by
+  have ht0 : t ∈ g0.conns oc := by rw [← hc.oldSame oc hoc]; exact ht
+  have hto : g0.owner t ≠ old := hself oc hoc t ht0
+  have htn : g0.owner t ≠ new := by
+    intro e
+    have := (hc.inv.symm oc t).mp ht
+    have h0 : oc ∈ g0.conns t := by
+      have hs := (CopyInv.inv hc)
+      have : oc ∈ g.conns t := this
+      -- `t` is owned by `new`: its list only holds partners of `old`, and it was empty before
+      have h1 := (show g0.conns t = [] from hun t e)
+      have h2 := hc.others oc (by rw [hoc]; exact hne)
+      have : t ∈ (g.conns oc).filter (fun y => g0.owner y != new) := by
+        rw [h2]; exact ht0
+      simp [e] at this
+    rw [hun t e] at h0; cases h0
+  have hmt : m ≠ t := by intro e; rw [e] at hm; exact htn hm
+  have hi := connect1_inv g m t hc.inv
+  have hst := connect1_static g m t
+  rw [he] at hi hst
+  refine ⟨hi, hc.static.trans hst, ?_, ?_, ?_⟩
+  · intro x hx
+    have hxm : x ≠ m := by intro e; rw [e, hm] at hx; exact hne hx.symm
+    have hxt : x ≠ t := by intro e; rw [e] at hx; exact hto hx
+    simp only [linked, updF, hxm, hxt, if_false]
+    exact hc.oldSame x hx
+  · intro x hx
+    have hxm : x ≠ m := by intro e; rw [e] at hx; exact hx hm
+    by_cases hxt : x = t
+    · subst hxt
+      simp only [linked, updF, if_true]
+      rw [List.filter_cons]
+      simp only [hm, bne_self_eq_false, Bool.false_eq_true, if_false]
+      exact hc.others x hx
+    · simp only [linked, updF, hxm, hxt, if_false]
+      exact hc.others x hx
+  · intro y hy z hz
+    have hyt : y ≠ t := by intro e; rw [e] at hy; exact htn hy
+    by_cases hym : y = m
+    · subst hym
+      simp only [linked, updF, hyt, if_false, if_true] at hz
+      rcases List.mem_cons.mp hz with rfl | hz'
+      · exact ⟨oc, hoc, ht0⟩
+      · exact hc.newOnly y hy z hz'
+    · simp only [linked, updF, hym, hyt, if_false] at hz
+      exact hc.newOnly y hy z hz
+
+theorem copyPairs_copyInv (g0 : G) (old new : Nat) (onlyNew hard : Bool) (ps : List (Option Nat × Nat))
+    (h : Inv g0) (hne : old ≠ new) (hself : NoSelfConn g0 old)
+    (hun : ∀ c, g0.owner c = new → g0.conns c = []) (hps : PairsOwned g0 old new ps) :
+    CopyInv g0 old new (copyPairs onlyNew g0 hard ps []).1 := by
+  have := copyPairs_ind (fun g _ => CopyInv g0 old new g) onlyNew hard ps
+    (fun g log my oc hmem hP =>
+      copyTargets_ind (fun g' _ => CopyInv g0 old new g') onlyNew my hard (g0.conns oc)
+        (fun g' log' m t _ _ _ hP' => hP')
+        (fun g' log' m t hmy ht _ _ he hP' => by
+          have ho := hps my oc hmem
+          exact hP'.link hne hself hun (ho.2 m hmy) ho.1 (by rw [hP'.oldSame oc ho.1]; exact ht) he)
+        (g.conns oc) (fun t ht => by rw [← hP.oldSame oc (hps my oc hmem).1]; exact ht) g log hP)
+    ps (fun _ h => h) g0 [] (CopyInv.init g0 old new h hun)
+  exact this
+
+theorem copyTargets_none_hard (onlyNew : Bool) (g : G) (t : Nat) (ts : List Nat) (log : List (Nat × Nat)) :
+    copyTargets onlyNew g none true (t :: ts) log = (g, log, true) := by
+  simp [copyTargets]
+
+/-- a hard copy that succeeded found a counterpart for every connected channel -/
+theorem copyPairs_hard_counterparts (g0 : G) (old new : Nat) (onlyNew : Bool) (hne : old ≠ new)
+    (hself : NoSelfConn g0 old) (hun : ∀ c, g0.owner c = new → g0.conns c = []) :
+    ∀ (ps : List (Option Nat × Nat)) (g : G) (log : List (Nat × Nat)), CopyInv g0 old new g →
+      PairsOwned g0 old new ps → (copyPairs onlyNew g true ps log).2.2 = false →
+      ∀ oc, (none, oc) ∈ ps → g0.conns oc = [] := by
+  intro ps
+  induction ps with
+  | nil => intro _ _ _ _ _ oc h; cases h
+  | cons q qs ih =>
+    intro g log hP hps hfl oc hmem
+    obtain ⟨my, oc'⟩ := q
+    have ho := hps my oc' (List.mem_cons_self ..)
+    have hps' : PairsOwned g0 old new qs := fun a b hab => hps a b (List.mem_cons_of_mem _ hab)
+    have hstep := copyTargets_ind (fun g' _ => CopyInv g0 old new g') onlyNew my true (g0.conns oc')
+        (fun g' log' m t _ _ _ hP' => hP')
+        (fun g' log' m t hmy ht _ _ he hP' =>
+          hP'.link hne hself hun (ho.2 m hmy) ho.1 (by rw [hP'.oldSame oc' ho.1]; exact ht) he)
+        (g.conns oc') (fun t ht => by rw [← hP.oldSame oc' ho.1]; exact ht) g log hP
+    unfold copyPairs at hfl
+    rcases List.mem_cons.mp hmem with heq | hmem'
+    · simp only [Prod.mk.injEq] at heq
+      obtain ⟨rfl, rfl⟩ := heq
+      cases hts : g.conns oc with
+      | nil => rw [← hP.oldSame oc ho.1]; exact hts
+      | cons t ts =>
+        rw [hts, copyTargets_none_hard] at hfl
+        simp at hfl
+    · generalize copyTargets onlyNew g my true (g.conns oc') log = r at hfl hstep
+      obtain ⟨g', log', fl⟩ := r
+      cases fl with
+      | true => simp at hfl
+      | false => exact ih g' log' hstep hps' hfl oc hmem'
+
+/-! ## the seat -/
+
+theorem lookup_mem {m : List (Nat × Nat)} {y n : Nat} (h : m.lookup y = some n) : (y, n) ∈ m := by
+  obtain ⟨l1, l2, rfl, _⟩ := List.lookup_eq_some_iff.mp h
+  simp
+
+theorem subst_of_not_key {m : List (Nat × Nat)} {y : Nat} (h : ∀ n, (y, n) ∉ m) : subst m y = y := by
+  unfold subst
+  cases hl : m.lookup y with
+  | none => rfl
+  | some n => exact absurd (lookup_mem hl) (h n)
+
+/-- what the seat needs to know about the world right after `copy_io` -/
+structure SeatCtx (g0 : G) (w1 : W) (old new : Nat) : Prop where
+  ci : CopyInv g0 old new w1.g
+  ne : old ≠ new
+  self : NoSelfConn g0 old
+  own : ∀ oc nc, (oc, nc) ∈ standIns w1 new old → g0.owner oc = old ∧ g0.owner nc = new
+  complete : ∀ oc, g0.owner oc = old → g0.conns oc ≠ [] → ∃ nc, (oc, nc) ∈ standIns w1 new old
+  inj : ∀ e e', e ∈ standIns w1 new old → e' ∈ standIns w1 new old → e.2 = e'.2 → e.1 = e'.1
+
+theorem SeatCtx.owner_eq {g0 : G} {w1 : W} {old new : Nat} (h : SeatCtx g0 w1 old new) :
+    w1.g.owner = g0.owner := h.ci.static.owner
+
+theorem SeatCtx.partner_iff {g0 : G} {w1 : W} {old new : Nat} (h : SeatCtx g0 w1 old new) (q : Nat) :
+    q ∈ (standIns w1 new old).flatMap (fun e => w1.g.conns e.1) ↔ ∃ oc, g0.owner oc = old ∧ q ∈ g0.conns oc := by
+  constructor
+  · intro hq
+    obtain ⟨e, he, hqe⟩ := List.mem_flatMap.mp hq
+    have ho := (h.own e.1 e.2 he).1
+    exact ⟨e.1, ho, by rw [← h.ci.oldSame e.1 ho]; exact hqe⟩
+  · rintro ⟨oc, ho, hq⟩
+    obtain ⟨nc, hm⟩ := h.complete oc ho (List.ne_nil_of_mem hq)
+    exact List.mem_flatMap.mpr ⟨(oc, nc), hm, by show q ∈ w1.g.conns oc; rw [h.ci.oldSame oc ho]; exact hq⟩
+
+/-- every neighbour lists the stand-in exactly where it listed the replaced channel -/
+theorem seat_neighbour {g0 : G} {w1 : W} {old new : Nat} (h : SeatCtx g0 w1 old new) (h0 : Inv g0) (q : Nat)
+    (hqo : g0.owner q ≠ old) (hqn : g0.owner q ≠ new) :
+    (seat w1 new old).conns q = (g0.conns q).map (subst (standIns w1 new old)) := by
+  have hf : (standIns w1 new old).find? (fun e => e.2 == q) = none := by
+    apply List.find?_eq_none.mpr
+    intro e he hq
+    simp only [beq_iff_eq] at hq
+    have := (h.own e.1 e.2 he).2
+    rw [hq] at this; exact hqn this
+  have ha : (standIns w1 new old).any (fun e => e.1 == q) = false := by
+    apply List.any_eq_false.mpr
+    intro e he hq
+    simp only [beq_iff_eq] at hq
+    have := (h.own e.1 e.2 he).1
+    rw [hq] at this; exact hqo this
+  simp only [seat, hf, ha, Bool.false_eq_true, if_false]
+  split
+  · rw [h.owner_eq, h.ci.others q hqn]
+  · rename_i hnp
+    have hnp' : ¬ ∃ oc, g0.owner oc = old ∧ q ∈ g0.conns oc := fun hh => hnp ((h.partner_iff q).mpr hh)
+    have h1 : w1.g.conns q = g0.conns q := by
+      rw [← h.ci.others q hqn]
+      symm
+      apply List.filter_eq_self.mpr
+      intro y hy
+      simp only [bne_iff_ne, ne_eq]
+      intro hyn
+      have hqy : q ∈ w1.g.conns y := (h.ci.inv.symm q y).mp hy
+      exact hnp' (h.ci.newOnly y hyn q hqy)
+    rw [h1]
+    symm
+    conv => rhs; rw [← List.map_id (g0.conns q)]
+    apply List.map_congr_left
+    intro y hy
+    simp only [id]
+    apply subst_of_not_key
+    intro n hm
+    have ho := (h.own y n hm).1
+    exact hnp' ⟨y, ho, (h0.symm q y).mp hy⟩
+
+/-- the stand-in's own list is the replaced channel's list, same order -/
+theorem seat_own {g0 : G} {w1 : W} {old new : Nat} (h : SeatCtx g0 w1 old new) (oc nc : Nat)
+    (hm : (oc, nc) ∈ standIns w1 new old) : (seat w1 new old).conns nc = g0.conns oc := by
+  have ho := (h.own oc nc hm).1
+  cases hf : (standIns w1 new old).find? (fun e => e.2 == nc) with
+  | none =>
+    have := List.find?_eq_none.mp hf (oc, nc) hm
+    simp at this
+  | some e =>
+    have he := List.mem_of_find?_eq_some hf
+    have h2 := List.find?_some hf
+    simp only [beq_iff_eq] at h2
+    have h1 : e.1 = oc := h.inj e (oc, nc) he hm h2
+    simp only [seat, hf]
+    rw [h1, h.ci.oldSame oc ho, h.owner_eq]
+    apply List.filter_eq_self.mpr
+    intro y hy
+    simp only [bne_iff_ne, ne_eq]
+    exact h.self oc ho y hy
+
+/-- the replaced node's channels let go -/
+theorem seat_old {g0 : G} {w1 : W} {old new : Nat} (h : SeatCtx g0 w1 old new) (c : Nat)
+    (hc : g0.owner c = old) : (seat w1 new old).conns c = [] := by
+  have hf : (standIns w1 new old).find? (fun e => e.2 == c) = none := by
+    apply List.find?_eq_none.mpr
+    intro e he hq
+    simp only [beq_iff_eq] at hq
+    have := (h.own e.1 e.2 he).2
+    rw [hq, hc] at this; exact h.ne this
+  simp only [seat, hf]
+  split
+  · rfl
+  · rename_i hk
+    have hempty : w1.g.conns c = [] := by
+      rw [h.ci.oldSame c hc]
+      cases hcs : g0.conns c with
+      | nil => rfl
+      | cons a l =>
+        exfalso
+        obtain ⟨nc, hm⟩ := h.complete c hc (by rw [hcs]; simp)
+        apply hk
+        apply List.any_eq_true.mpr
+        exact ⟨(c, nc), hm, by simp⟩
+    split <;> simp [hempty]
+
+theorem disconnectChans_noop (g : G) (cs : List Nat) (h : ∀ c ∈ cs, g.conns c = []) :
+    disconnectChans g cs = g := by
+  unfold disconnectChans
+  induction cs with
+  | nil => rfl
+  | cons c cs ih =>
+    simp only [List.foldl_cons]
+    have : disconnectAll g c = g := by
+      simp [disconnectAll, h c (List.mem_cons_self ..), disconnect]
+    rw [this]
+    exact ih (fun c' hc' => h c' (List.mem_cons_of_mem _ hc'))
 
 end PwVerif.Edit
